@@ -441,8 +441,13 @@ class BitArray(Bits):
             pos = (pos,)
         v = 1 if value else 0
         if isinstance(pos, range):
-            self._bitstore.__setitem__(slice(pos.start, pos.stop, pos.step), v)
-            return
+            if len(pos) == 0:
+                return
+            first, last = min(pos[0], pos[-1]), max(pos[0], pos[-1])
+            if first >= 0 and last < len(self):
+                # All positions are in range and non-negative, so this is the same as setting a slice.
+                self._bitstore.__setitem__(slice(first, last + 1, abs(pos.step)), v)
+                return
         for p in pos:
             self._bitstore[p] = v
 
